@@ -26,4 +26,6 @@ def run(ctx) -> None:
     template.rule_G9(ctx)
     ctx.rules_run.append("G11")
     template.rule_G11(ctx)
+    ctx.rules_run.append("G13")
+    template.rule_G13(ctx)
     ctx.floor("G1", "cardinality obligations", len([o for o in ctx.obs if o.rule == "G1"]), 8)
